@@ -25,6 +25,9 @@ def _det(kind, shape, pixel_vert_size=10.0, pixel_horz_size=10.0, **char):
     return d
 
 
+_SEQ = [0]
+
+
 def h_collect(p):
     from pyxel.models.charge_collection import simple_collection
 
@@ -62,10 +65,19 @@ def h_collectp(p):
 
 
 def h_qe(p):
-    from pyxel.models.charge_generation.photoelectrons import apply_qe, simple_conversion
+    from pyxel.models.charge_generation.photoelectrons import apply_qe, conversion_with_qe_map, simple_conversion
 
     ph = np.array(p["photon"], dtype=float)
     samp = p["sampling"]
+    if p["path"] == "map":
+        # one efficiency per pixel, through a file with a fresh name (the loader memoises by file name)
+        _SEQ[0] += 1
+        fname = f"qemap_{_SEQ[0]}.npy"
+        np.save(fname, np.array(p["qs"], dtype=float).reshape(ph.shape))
+        det = _det(p.get("det", "ccd"), ph.shape)
+        det.photon.array = ph.copy()
+        conversion_with_qe_map(det, filename=fname, seed=p.get("seed", 0), binomial_sampling=samp)
+        return {"out": hx(det.charge.array)}
     if p["path"] == "select":
         # simple_conversion with the efficiency given as model argument, by the characteristics, or both
         det = _det(p.get("det", "ccd"), ph.shape, quantum_efficiency=p["char"])
@@ -143,9 +155,6 @@ def h_ipc(p):
     if out.shape != fr.shape:
         return {"raise": f"shape:{out.shape}"}
     return {"out": hx2(out)}
-
-
-_SEQ = [0]
 
 
 def h_persist(p):
